@@ -447,7 +447,8 @@ def run(i):
     sc = SCEN[i]
     del STATE_LIST[:]
     ex = Explorer(lambda: build(sc), enabled_for(sc), P.apply_event, state_monitors=[sm_collect], extra_fn=P.budget_key,
-                  abstraction_checks=10, replay_every=50, label='%s/%s' % (sc['start'], sc['config']), cover=COVER)
+                  abstraction_checks=10, replay_every=50, label='%s/%s' % (sc['start'], sc['config']), cover=COVER,
+                  continuous_init_fn=lambda: build(sc, cls=ContinuousWorld))
     ex.run()
     sm = ex.summary()
     sm['state_list'] = list(STATE_LIST)
